@@ -23,9 +23,11 @@ def obligations(tier):
     o = []
     depth = 1
     for fe, fen in [(0, "ult"), (1, "ext")]:
-        fns = [("ABT_mutex_lock", "ABT_mutex_unlock")] if tier == "quick" else [("ABT_mutex_lock", "ABT_mutex_unlock"), ("ABT_mutex_lock_low", "ABT_mutex_unlock_se"), ("ABT_mutex_lock_high", "ABT_mutex_unlock_de")]
+        fns = [("ABT_mutex_lock", "ABT_mutex_unlock"), ("ABT_mutex_lock_low", "ABT_mutex_unlock_se"), ("ABT_mutex_lock_high", "ABT_mutex_unlock_de")]
         for lf, uf in fns:
             for he, hen in [(0, "holderult"), (1, "holderext")]:
+                if tier == "quick" and lf != "ABT_mutex_lock" and he != fe:
+                    continue                     # quick: the low/se and high/de variants with like-kinded holder only
                 o.append(Obl("lock_%s_%s_%s" % (fen, lf.replace("ABT_mutex_", ""), hen), "C04/lock.c",
                              "%s by %s as focus; mutex free or held by %s; holder's %s and a third agent's trylock/unlock placed by the solver at every atomic instruction incl. while the focus is parked: mutual exclusion, trylock iff free, lock word held on return, no lost wakeup (stuck predicate), blocked counter balanced" % (
                                  lf, "a ULT" if fe == 0 else "an external thread (futex path)", "a ULT on another stream" if he == 0 else "an external thread", uf),
@@ -37,9 +39,9 @@ def obligations(tier):
                              bounds="3 agents, <=1 environment operation per scheduling point, nesting depth %d, <=3 environment steps while parked, retry loops unwound 3-4x (unwinding assertions on all loops except the cut spin loops)" % depth,
                              symbolic="initial state (free/held), which agent acts at which atomic instruction, how often", timeout=600 if tier == "thorough" else 150))
     for init, nm in [(0, "dynamic"), (1, "static_initializer")]:
-        o.append(Obl("recursive_step_%s" % nm, "C04/recursive.c", "recursive mutex (%s): ONE lock/trylock/spinlock/unlock from ANY consistent (owner, nesting depth 0..INT_MAX-1) state: depth counts exactly, released only by the outermost unlock, non-owner trylock refused and changes nothing" % nm,
+        o.append(Obl("recursive_step_%s" % nm, "C04/recursive.c", "recursive mutex (%s): ONE lock/lock_low/lock_high/trylock/spinlock/unlock/unlock_se/unlock_de from ANY consistent (owner, nesting depth 0..INT_MAX-1) state: depth counts exactly, released only by the outermost unlock, non-owner trylock refused and changes nothing" % nm,
                      real=["src/mutex.c"], defs=["INIT=%d" % init], unwind=3, cut_loops=SPIN, backend="cadical",
-                     encodes=["ABT_mutex_lock", "ABT_mutex_trylock", "ABT_mutex_spinlock", "ABT_mutex_unlock", "ABTI_mutex_lock", "ABTI_mutex_unlock"],
+                     encodes=["ABT_mutex_lock", "ABT_mutex_lock_low", "ABT_mutex_lock_high", "ABT_mutex_trylock", "ABT_mutex_spinlock", "ABT_mutex_unlock", "ABT_mutex_unlock_se", "ABT_mutex_unlock_de", "ABTI_mutex_lock", "ABTI_mutex_unlock"],
                      bounds="one step; nesting depth any value in [0, INT_MAX)", symbolic="owner (none/caller/other), nesting depth, operation"))
     o += deepen([x for x in o if x.hooks and x.name.startswith('lock_ult_lock_holder')], 'thorough', extra_defs=('VR_RESUME_ELSEWHERE',), suffix='_resumed_elsewhere', timeout=400, object_bits=14, mem_gb=10)
     for x in o:
